@@ -131,7 +131,7 @@ def c06_case(args):
     known = Known("C06")
     top = schema.top
     fields = schema.struct(top)
-    desc = schema.describe()
+    desc = schema.describe() + f" id={schema.impls[0][3]['id']}"
     bits = fixed_bits(schema, ("struct", top))
     feats = {"desc": desc, "kinds": [t[0] for _, _, t in fields], "widths": [t[1] if t[0] in "ui" else None for _, _, t in fields],
              "offsets": [], "has_float": any(t[0] in ("f32", "f64") for _, _, t in fields)}
@@ -380,7 +380,7 @@ def c19_case(args):
     schema = sched_schema(periods)
     eff = [(-1 if p is None else p) for p in periods]
     n = len(periods)
-    desc = f"device with periods {eff}"
+    desc = f"device with periods {periods}"
     feats = {"desc": desc, "periods": eff}
     encs = "\n".join(f"void h_enc{i}(const CanDeviceEcu *d, CanFrame *out) {{ *out = can_encode_msg_m{i}(&d->m{i}); }}"
                      for i in range(n))
